@@ -123,11 +123,21 @@ impl Default for Behaviour {
     }
 }
 
+/// (A plain `Option<Option<usize>>` does not survive JSON: `Some(None)` and `None` are both `null`.)
+#[derive(Clone, Copy, Debug, Default, PartialEq, Eq, Serialize, Deserialize)]
+pub enum BuilderLimit {
+    #[default]
+    Unset,
+    Unlimited,
+    Limit(usize),
+}
+
 #[derive(Clone, Debug, Default, Serialize, Deserialize)]
 pub struct RunnerCfg {
     pub cli_concurrency: Option<usize>,
-    /// `None` = builder not called (default 64); `Some(None)` = unlimited.
-    pub builder_concurrency: Option<Option<usize>>,
+    /// Builder's `max_concurrent_scenarios`: not called (default 64), unlimited, or a limit.
+    #[serde(default)]
+    pub builder_concurrency: BuilderLimit,
     pub cli_retry: Option<usize>,
     pub builder_retries: Option<usize>,
     pub cli_retry_after_ns: Option<u64>,
@@ -144,8 +154,9 @@ pub struct RunnerCfg {
 impl RunnerCfg {
     pub fn limit(&self) -> Option<usize> {
         self.cli_concurrency.or(match self.builder_concurrency {
-            None => Some(64),
-            Some(v) => v,
+            BuilderLimit::Unset => Some(64),
+            BuilderLimit::Unlimited => None,
+            BuilderLimit::Limit(n) => Some(n),
         })
     }
     pub fn fail_fast(&self) -> bool {
